@@ -633,6 +633,12 @@ def rule_merge(ctx, rep):
         for pa in popall:
             rep.must_pass("C01.merge", fl + ".gp_lock≺move_waiters", f, [f.entry()], [pa], lambda i: any(i is g for g in gpl), include_start=True,
                           what="waiters are taken only after rcu_gp_lock is held (every merged caller queued before this grace period started)")
+        # ... and before the grace period starts: a caller that queues itself after the leader began
+        # scanning must not be released by this grace period
+        rd = [i for i in f.all_insts() if is_rd_ctr_load(F)(i)]
+        pat.require(rd, "%s: no reader-word load in %s" % (fl, f.name))
+        rep.must_pass("C01.merge", fl + ".move_waiters≺scan", f, [f.entry()], rd, lambda i: any(i is x for x in popall), include_start=True,
+                      what="the leader takes the queued waiters before it reads any reader word (waiters arriving during the grace period wait for the next one)")
         gpu = pat.mutex_calls(f, "pthread_mutex_unlock", "rcu_gp_lock")
         wake = [i for i in f.all_insts() if pat.from_fn(i, "urcu_wake_all_waiters")]
         pat.require(wake, "%s: urcu_wake_all_waiters vanished" % fl)
